@@ -4,6 +4,7 @@ Deliberately dumb: attribute reads and constructor calls only."""
 from __future__ import annotations
 
 from .core import outcome, octs, after_pack, decoded, live, scramble, rxbuf, owned, enum_arg
+from .probe import fresh
 from .probe import decode_other, poison, twin
 
 
@@ -201,7 +202,7 @@ def op_sph_unpack(a):
     from spacepackets.ccsds.spacepacket import SpacePacketHeader
 
     def run():
-        o = decoded(lambda: SpacePacketHeader.unpack(bytes(a["octets"])))
+        o = decoded(lambda: fresh(lambda: SpacePacketHeader.unpack(bytes(a["octets"]))))
         return {"h": _hdr_proj(o), "plen": o.packet_len, "repack": octs(o.pack()),
                 "pid": o.packet_id.raw(), "psc": o.packet_seq_control.raw()}
     return outcome(run)
@@ -211,7 +212,7 @@ def op_pid_from_raw(a):
     from spacepackets.ccsds.spacepacket import PacketId
 
     def run():
-        p = PacketId.from_raw(a["raw"])
+        p = fresh(lambda: PacketId.from_raw(a["raw"]))
         return {"p": {"type": int(p.ptype), "shf": int(bool(p.sec_header_flag)), "apid": int(p.apid)},
                 "raw": p.raw()}
     return outcome(run)
@@ -221,7 +222,7 @@ def op_psc_from_raw(a):
     from spacepackets.ccsds.spacepacket import PacketSeqCtrl
 
     def run():
-        p = PacketSeqCtrl.from_raw(a["raw"])
+        p = fresh(lambda: PacketSeqCtrl.from_raw(a["raw"]))
         return {"p": {"flags": int(p.seq_flags), "count": int(p.seq_count)}, "raw": p.raw()}
     return outcome(run)
 
@@ -264,7 +265,7 @@ def op_tc_rt(a):
 
     def rest(tc, raw, plen, sp):
         buf = live(bytearray(bytes(raw) + bytes(a["sfx"]))) if a.get("via") == "bytearray" else rxbuf(raw, a["sfx"])
-        dec = PusTc.unpack(buf)
+        dec = fresh(lambda: PusTc.unpack(buf))
         if not isinstance(buf, bytes):
             dec.to_space_packet().pack()          # the view of an object decoded from a receive buffer / a window into one
         scramble()                                    # the receive buffer is re-used: the decoded object owns its data
@@ -282,7 +283,7 @@ def op_tc_unpack(a):
     from spacepackets.ecss.tc import PusTc
 
     def run():
-        dec = decoded(lambda: PusTc.unpack(bytes(a["octets"])))
+        dec = decoded(lambda: fresh(lambda: PusTc.unpack(bytes(a["octets"]))))
         keep = octs(dec.pack(recalc_crc=False))
         return {"v": tc_proj(dec), "plen": dec.packet_len, "keep": keep, "repack": octs(dec.pack())}
     return outcome(run)
@@ -327,7 +328,7 @@ def op_tm_rt(a):
         cls = Service17Tm if via == "srv17" else PusTm
         tsl = len(a["p"]["stamp"])
         buf = live(bytearray(bytes(raw) + bytes(a["sfx"]))) if via == "bytearray" else rxbuf(raw, a["sfx"])
-        dec = cls.unpack(buf, tsl)
+        dec = fresh(lambda: cls.unpack(buf, tsl))
         if not isinstance(buf, bytes):
             _inner_tm(dec).to_space_packet().pack()
         scramble()
@@ -349,7 +350,7 @@ def op_tm_unpack(a):
 
     def run():
         cls = Service17Tm if a.get("via") == "srv17" else PusTm
-        dec = decoded(lambda: cls.unpack(bytes(a["octets"]), a["tslen"]))
+        dec = decoded(lambda: fresh(lambda: cls.unpack(bytes(a["octets"]), a["tslen"])))
         keep = octs(_inner_tm(dec).pack(recalc_crc=False))
         return {"v": tm_proj(_inner_tm(dec)), "plen": _inner_tm(dec).packet_len, "keep": keep, "repack": octs(dec.pack())}
     return outcome(run)
